@@ -118,6 +118,18 @@ def child(args):
     if hasattr(mod, "setup"):
         mod.setup(pr)
     pr.reach_start()
+    apicov = None
+    if os.environ.get("VERIF_APICOV"):          # API-surface audit (tools/apicov.py): which ahrs functions did this workload enter?
+        import sys as _sys
+        apicov = set()
+        root = os.path.realpath(tree())
+
+        def _prof(frame, event, arg):
+            if event == "call":
+                fn = frame.f_code.co_filename
+                if fn.startswith(root):
+                    apicov.add("%s:%s:%d" % (os.path.relpath(fn, root), frame.f_code.co_qualname if hasattr(frame.f_code, "co_qualname") else frame.f_code.co_name, frame.f_code.co_firstlineno))
+        _sys.setprofile(_prof)
     os.environ.setdefault("VERIF_DEPTH", str(getattr(mod, "THOROUGH_DEPTH", 1)))
     rng = np.random.Generator(np.random.PCG64(shard_seed(args.seed, args.prop, args.shard)))
     ctx = Ctx()
@@ -139,6 +151,12 @@ def child(args):
         "probe_calls": pr.counts(), "reach": reach,
         "extra": mod.extra_evidence() if hasattr(mod, "extra_evidence") else {},
     }
+    if apicov is not None:
+        import sys as _sys
+        _sys.setprofile(None)
+        os.makedirs(os.path.join(core.VERIF, ".work", "apicov"), exist_ok=True)
+        with open(os.path.join(core.VERIF, ".work", "apicov", "%s-%d.json" % (args.prop, args.shard)), "w") as f:
+            json.dump(sorted(apicov), f)
     np.save(args.out + ".npy", np.array(stats["digests"], dtype=np.uint64))
     with open(args.out, "w") as f:
         json.dump(core.enc(out), f)
